@@ -7,6 +7,7 @@
 // const views leave the buffer bitwise untouched, cross-storage construction/assignment copies verbatim, cast<S>() converts
 // coefficient-wise without reordering.
 #pragma once
+#include <regex>
 #include "bind.hpp"
 
 #include <functional>
@@ -60,6 +61,10 @@ struct Harness
     int off, len;  // write range inside the region
     std::function<void(MG &, S * buf, const Operands &)> on_map;
     std::function<void(G &, const Operands &)> on_val;
+    /// >= 0: the operation is a plain assignment "m<acc> = value#k<acc>" of the same sub-part of operand k: afterwards the write
+    /// range holds the operand's coefficients of that range verbatim (an expectation that does not go through the library:
+    /// the Map-vs-value comparison alone cannot see an accessor that silently writes nowhere in both runs)
+    int assign_from = -1;
   };
   std::vector<Op> ops;
   Operands od;
@@ -70,6 +75,9 @@ struct Harness
   void add(const std::string & name, int off, int len, F f)
   {
     ops.push_back({name, off, len, [f](MG & m, S *, const Operands & o) { f(m, o); }, [f](G & v, const Operands & o) { f(v, o); }});
+    static const std::regex pure(R"(^m(\S*) = value#(\d)(\S*)$)");
+    std::smatch mt;
+    if (std::regex_match(name, mt, pure) && mt[1].str() == mt[3].str()) ops.back().assign_from = std::stoi(mt[2].str());
   }
 
   explicit Harness(const std::string & name) : tn(name)
@@ -186,6 +194,15 @@ struct Harness
       for (int i = 0; i < 2 * GD + N + 8; ++i)
         if ((i < lo || i >= hi) && memcmp(&b.raw[i], &before.raw[i], sizeof(S)) != 0) clean = false;
       c->require("nothing outside the write range changed", clean);
+      if (op.assign_from >= 0) {
+        bool stored = true;
+        const G & src = od.g[size_t(op.assign_from)];
+        for (int i = 0; i < N; ++i) {
+          const S want = (i >= op.off && i < op.off + op.len) ? S(src.coeffs()(i)) : st[size_t(i)];
+          if (memcmp(&want, &reg[i], sizeof(S)) != 0 || memcmp(&want, &v.coeffs()(i), sizeof(S)) != 0) stored = false;
+        }
+        c->require("assignment stored the source's coefficients verbatim (view and value)", stored);
+      }
     }
     return out;
   }
@@ -233,6 +250,32 @@ struct Harness
         if (memcmp(g->data(), reg, sizeof(S) * N) != 0) verb = false;
     }
     c.require("construction/assignment across storage copies verbatim", verb);
+    // sources that are temporaries / moved-from views over caller-owned memory: read, never written
+    {
+      bool verb2 = true;
+      // destinations hold something else beforehand (an exchange of equal contents would be invisible)
+      G other = od.g[0];
+      for (const auto & g : od.g)
+        if (memcmp(g.data(), reg, sizeof(S) * N) != 0) other = g;
+      G g5 = other;
+      g5   = MG(reg);
+      const G g6 = G(MG(reg));
+      MG mm(reg);
+      G g7 = other;
+      g7   = std::move(mm);
+      alignas(32) S t3[N + 2];
+      for (int i = 0; i < N; ++i) t3[i + 1] = other.coeffs()(i);
+      MG m3(t3 + 1);
+      m3   = MG(reg);
+      G g8 = other;
+      g8   = CMG(reg);
+      const G * all[5] = {&g5, &g6, &g7, &g8, nullptr};
+      for (int k = 0; k < 4; ++k)
+        if (memcmp(all[k]->data(), reg, sizeof(S) * N) != 0) verb2 = false;
+      if (memcmp(t3 + 1, reg, sizeof(S) * N) != 0) verb2 = false;
+      c.require("assignment / construction from a temporary or moved-from view copies verbatim", verb2);
+      c.require("a view that is the source of an assignment is not written (temporary, moved-from)", memcmp(b.raw, before.raw, sizeof b.raw) == 0);
+    }
     // cast converts each coefficient without reordering
     {
       using O = std::conditional_t<std::is_same_v<S, double>, float, double>;
